@@ -578,26 +578,43 @@ func (b *boundsAnalysis) prove(goal lin, facts factSet) bool {
 	for _, l := range tb {
 		addC(l)
 	}
-	// search goal = sum(lambda_i * cand_i) + c, c >= 0, lambda_i in 0..3, at most 4 facts used
-	var rec func(i int, cur lin, used int) bool
-	rec = func(i int, cur lin, used int) bool {
-		if len(cur.co) == 0 && cur.k >= 0 {
-			return true
+	// search goal = sum(lambda_i * cand_i) + c with c >= 0: eliminate the residual's
+	// terms one at a time, each with a candidate that cancels it exactly
+	var rec func(cur lin, depth int) bool
+	rec = func(cur lin, depth int) bool {
+		if len(cur.co) == 0 {
+			return cur.k >= 0
 		}
-		if i == len(cands) || used == 4 {
+		if depth == 5 {
 			return false
 		}
-		if rec(i+1, cur, used) {
-			return true
+		// pick the lexicographically first term of the residual
+		var t string
+		for term := range cur.co {
+			if t == "" || term < t {
+				t = term
+			}
 		}
-		for m := int64(1); m <= 3; m++ {
-			if rec(i+1, cur.add(cands[i], -m), used+1) {
+		ct := cur.co[t]
+		for _, cand := range cands {
+			fc, ok := cand.co[t]
+			if !ok || (fc > 0) != (ct > 0) {
+				continue // subtracting lambda*cand must move the coefficient towards zero
+			}
+			if ct%fc != 0 {
+				continue
+			}
+			m := ct / fc
+			if m < 1 || m > 3 {
+				continue
+			}
+			if rec(cur.add(cand, -m), depth+1) {
 				return true
 			}
 		}
 		return false
 	}
-	return rec(0, goal, 0)
+	return rec(goal, 0)
 }
 
 // ---------------------------------------------------------------------------
